@@ -182,7 +182,17 @@ def run_case(job):
     import pygopherd.handlers.UMN as umn
     wf, head, entries = lex_menu(r.out)
     ok = wf and r.escaped is None and not any("EXCEPTION" in l for l in r.log)
-    ev = {"ev": "listing", "ok": ok, "out": entries, "head": head}
+    # follow every menu line that points at this server: can the listed selector be fetched?
+    fetch = []
+    for e in entries:
+        if e["host"] == SERVER["host"] and e["port"] == SERVER["port"] and "\t" not in e["sel"] and "\n" not in e["sel"]:
+            fr = w.request(e["sel"].encode("utf-8", "surrogateescape") + b"\r\n")
+            first = fr.out.split(b"\r\n", 1)[0]
+            fetch.append("noreply" if not fr.out else
+                         "notfound" if first.startswith(b"3") and first.endswith(b"\terror.host\t1") else "ok")
+        else:
+            fetch.append("n/a")
+    ev = {"ev": "listing", "ok": ok, "out": entries, "head": head, "fetch": fetch}
     extra = {"raw": r.out[:800].decode("latin-1"), "log": r.log[-3:], "escaped": r.escaped,
              "extstrip_in_force": umn.extstrip, "handler": [l for l in r.log if "Handler]" in l][:1],
              "faults_wanted": len(faults), "faults_fired": hook.fired}
@@ -253,7 +263,7 @@ def build_traces(cases, results, tag):
     traces = []
     for c, (ev, extra) in zip(cases, results):
         traces.append({"id": "%s:%s" % (tag, case_key(c["dir"])), "init": {"dir": c["dir"]},
-                       "events": [{"ev": ev["ev"], "ok": ev["ok"], "out": ev["out"]}],
+                       "events": [{"ev": ev["ev"], "ok": ev["ok"], "out": ev["out"], "fetch": ev["fetch"]}],
                        "case": c, "extra": extra, "head": ev["head"], "handlers": tag})
     return traces
 
@@ -268,7 +278,7 @@ def selftest():
     """Binding demonstration: a recorded trace is accepted; the same trace with one field corrupted /
     one entry dropped / entries swapped is rejected by TraceC08, naming the clause."""
     d = {"sel": "/d", "files": ["a.txt", "b", "c.txt.gz"], "mode": "nonencoded",
-         "lf": {"has": True, "lines": ["Name=Mid", "Path=/abs", "Host=+", "Port=+", "", "Path=./b", "Numb=1"]},
+         "lf": {"has": True, "lines": ["Name=Mid", "Path=a.txt", "Host=+", "Port=+", "", "Path=./b", "Numb=1"]},
          "cap": {"has": False, "f": "", "lines": []}, "side": [{"f": "a.txt", "ext": ".abstract", "kind": "text", "text": ["side one"]},
                                                                  {"f": "b", "ext": ".3d", "kind": "EACCES", "text": ["x"]}], "srv": dict(SERVER)}
     case = {"dir": d, "kinds": ["file", "dir", "file"], "cls": "none", "scope": True}
@@ -280,7 +290,7 @@ def selftest():
         if _W is not None:
             _W.close()
             _W = None
-    good = {"id": "good", "init": {"dir": d}, "events": [{"ev": "listing", "ok": ev["ok"], "out": ev["out"]}]}
+    good = {"id": "good", "init": {"dir": d}, "events": [{"ev": "listing", "ok": ev["ok"], "out": ev["out"], "fetch": ev["fetch"]}]}
     variants = [good]
     for name, f in (("host-corrupted", lambda o: o[1].__setitem__("host", "+")),
                     ("entry-dropped", lambda o: o.pop(1)),
@@ -288,7 +298,9 @@ def selftest():
                     ("abstract-lost", lambda o: [e.__setitem__("abs", []) for e in o])):
         o = json.loads(json.dumps(ev["out"]))
         f(o)
-        variants.append({"id": name, "init": {"dir": d}, "events": [{"ev": "listing", "ok": True, "out": o}]})
+        variants.append({"id": name, "init": {"dir": d}, "events": [{"ev": "listing", "ok": True, "out": o, "fetch": ["ok"] * len(o)}]})
+    variants.append({"id": "plus-link-dead", "init": {"dir": d}, "events": [
+        {"ev": "listing", "ok": True, "out": ev["out"], "fetch": ["notfound"] * len(ev["out"])}]})
     variants.append({"id": "event-dropped", "init": {"dir": d}, "events": []})
     tv = validate(variants)
     rej = {r["trace"]["id"]: r["clause"] for r in tv["rejected"]}
